@@ -75,7 +75,14 @@ func H_C08_skip() {
 	content += staleAB
 	writeFile(path, content)
 	// the test source that owns the file
-	vxrt.TestSources(vxrt.Dir()+"/f_test.go", "TestA", "TestAB", "TestC", "Test1", "TestOX")
+	k7 := vxrt.Param("known_K7", 1) == 0
+	if k7 {
+		// known finding K7: the test file also declares a test that stores no snapshots; when -run
+		// selects only that one, the file of its (unselected) neighbours counts as live-checked
+		vxrt.TestSources(vxrt.Dir()+"/f_test.go", "TestA", "TestAB", "TestC", "Test1", "TestOX", "TestGX")
+	} else {
+		vxrt.TestSources(vxrt.Dir()+"/f_test.go", "TestA", "TestAB", "TestC", "Test1", "TestOX")
+	}
 	// a stale snapshot file whose test source declares TestO (a test that stores nothing any more):
 	// skipping TestOX must not protect it
 	writeFile(dir+"/old_test.snap", frame("TestO - 1", "gone"))
@@ -148,7 +155,7 @@ func H_C08_skip() {
 		lit := vxrt.Text("run-literal", vxrt.Len("run-literal-len", 1, vxrt.Param("lit", 2)))
 		for i := 0; i < len(lit); i++ {
 			ch := lit[i]
-			vxrt.Assume(vxrt.Or(vxrt.And(ch >= 'A', ch <= 'C'), vxrt.Or(vxrt.And(ch >= 's', ch <= 'u'), vxrt.Or(vxrt.Or(ch == 'T', ch == 'e'), ch == '1'))))
+			vxrt.Assume(vxrt.Or(vxrt.And(ch >= 'A', ch <= 'C'), vxrt.Or(vxrt.And(ch >= 's', ch <= 'u'), vxrt.Or(vxrt.Or(vxrt.Or(ch == 'T', ch == 'e'), ch == '1'), vxrt.Or(ch == 'G', ch == 'X')))))
 		}
 		pattern = lit
 		if vxrt.Bool("anchor-start") {
@@ -215,6 +222,9 @@ func H_C08_skip() {
 			tc.end()
 			pRanC = true
 		}
+	}
+	if mode == 1 && !anyRan && runSelects(pattern, "TestG") {
+		vxrt.Reach("only-other-file-selected")
 	}
 	if runSelects(pattern, "TestG") {
 		tg := newT("TestG")
